@@ -27,6 +27,7 @@ EXPLANATION += ' Added after the seeded-change rounds: ' + "D1 also: a caller le
 EXPLANATION += ' Added in the third session (round-3 seeds and the findings they led to): ' + "D5 also: emptying the table of a per-instance-key container destroys and re-creates the native key (the only way to drop every thread's cached pointer); nothing can fail between the creation of a thread's element and the claim of its slot (violated: known finding)."
 EXPLANATION += ' Added later in the fourth round: ' + 'D5 also: a function of ets_base that gives table slots to keys accounts for them in my_count (increment, or a store whose value comes from the source container / a count); the result of creating the per-instance TLS key is examined.'
 EXPLANATION += ' Added in the fifth seeding round: ' + 'D5 also: ets_base::table_swap of every specialisation exchanges every data member its own methods use (derived from the accesses through this: the root, the count, and with ets_key_per_instance the native TLS key) with the same member of the other instance - a table that changes hands without its key leaves the threads cached slot pointers aimed into the other container.'
+EXPLANATION += ' Added in the sixth (partial) seeding round: ' + 'D5 also: at every CAS that publishes a hash array on my_root the expected variable holds the value last stored into new_array->next (tracked through copies; a failed CAS overwrites its expected argument) - the published array links exactly the array it replaces.'
 ASSUMPTIONS = ['instantiations of drivers/algorithms.cpp (once flag with and without arguments, ETS with both key policies)']
 ND = ['one element per thread over all interleavings of first accesses and table growth', 'combine / iteration coverage']
 
@@ -39,6 +40,7 @@ def run(facts, rep):
     d5_key_count(facts, rep)
     d5_tls_key_creation_checked(facts, rep)
     d5_swap_moves_the_whole_state(facts, rep)
+    d5_published_array_links_what_it_replaces(facts, rep)
 
 
 def witnesses(rep, tier):
@@ -481,3 +483,67 @@ def d5_swap_moves_the_whole_state(facts, rep):
                        'element of the other container' % f_, key_extra='swap|%s|%s' % (cq[-40:], f_))
     if n < 3:
         raise AnalysisBroken('ets_base::table_swap: %d exchanged-field obligations (expected my_root, my_count, my_key)' % n)
+
+
+def d5_published_array_links_what_it_replaces(facts, rep):
+    """ets_base::table_lookup publishes a bigger hash array by a CAS on my_root; the arrays form a chain through `next`, and a
+    thread finds its element by walking that chain.  The new array must point at exactly the array the successful CAS replaced:
+    after a failed attempt the root has changed (another thread published an array in between, possibly already holding keys), so
+    the link has to be renewed before the next attempt - otherwise the array published in between is cut out of the chain, the
+    threads whose key lives only there get a second element on their next local(), and size()/iteration count them twice.
+    Rule (per path): at every CAS on my_root the `expected` variable holds the value last stored into new_array->next - tracked
+    through copies; a failed CAS overwrites its `expected` argument."""
+    from engine.rules import product_walk_from
+    n = 0
+    for fn in sorted(facts.fns.values(), key=lambda f: f.q):
+        if fn.p != D1N + 'ets_base::table_lookup':
+            continue
+        cas = {}
+        for pos, o in atomic_ops(fn):
+            if o['kind'] == 'cas' and last_member(fn, o['obj']) == 'my_root':
+                nd = fn.n(o['s'])
+                args = nd.get('a', [])
+                if len(args) >= 2:
+                    e, a = fn.n(fn.strip(args[0])), fn.n(fn.strip(args[1]))
+                    if e.get('k') == 'var' and a.get('k') == 'var':
+                        cas[pos] = (e['v'], a['v'], nd.get('ln'))
+        if not cas:
+            continue
+        newarr = set(v[1] for v in cas.values())
+        bad = {}
+
+        def elem_tr(st, pos, e):
+            if not isinstance(e, int):
+                return st
+            nd = fn.nodes[e]
+            if pos in cas:
+                ev, av, ln = cas[pos]
+                if ev not in st:
+                    bad[pos] = ln
+                return frozenset(x for x in st if x != ev)       # a failed CAS reloads `expected`; a successful one leaves the loop
+            if nd.get('k') == 'binop' and nd.get('op') == '=':
+                l, r = fn.n(fn.strip(nd['l'])), fn.n(fn.strip(nd['r']))
+                if l.get('k') == 'member' and l.get('n') == 'next' and fn.n(fn.strip(l.get('base', -1))).get('v') in newarr:
+                    return frozenset([r['v']]) if r.get('k') == 'var' else frozenset()
+                if l.get('k') == 'var':
+                    if r.get('k') == 'var' and r['v'] in st:
+                        return st | frozenset([l['v']])
+                    return frozenset(x for x in st if x != l['v'])
+            if nd.get('k') == 'decl':
+                for v in nd.get('vars', []):
+                    iv = fn.n(fn.strip(v['init'])) if v.get('init', -1) >= 0 else {}
+                    if iv.get('k') == 'var' and iv['v'] in st:
+                        st = st | frozenset([v['v']])
+                    else:
+                        st = frozenset(x for x in st if x != v['v'])
+                return st
+            return st
+        product_walk_from(fn, (fn.entry, -1), frozenset(), elem_tr)
+        for pos, (ev, av, ln) in sorted(cas.items()):
+            n += 1
+            rep.ob('D5', 'K3', fn, 'the hash array being published links the array the CAS expects to replace', pos not in bad,
+                   'a path reaches the CAS on my_root at line %s with new_array->next not (re)set to the expected root: after a failed attempt '
+                   'the array another thread published in between is cut out of the chain - its threads get a second element' % ln,
+                   ln=ln, key_extra='root-cas-link')
+    if n < 1:
+        raise AnalysisBroken('ets_base::table_lookup: CAS on my_root not found')
